@@ -193,8 +193,12 @@ def _node_matches_argspec(node, func):
   # (dime10) replacement for tf_inspect.getfullargspec
   arg_spec = inspect.getfullargspec(func)
 
-  node_args = tuple(_arg_name(arg) for arg in node.args.args)
+  node_args = tuple(
+      _arg_name(arg) for arg in node.args.posonlyargs + node.args.args)
   if node_args != tuple(arg_spec.args):
+    return False
+
+  if len(node.args.posonlyargs) != func.__code__.co_posonlyargcount:
     return False
 
   if arg_spec.varargs != _arg_name(node.args.vararg):
